@@ -1513,6 +1513,24 @@ func (interp *Interpreter) cfg(root *node, sc *scope, importPath, pkgName string
 				child = child[1:]
 			}
 
+			// Non-constant untyped elements (shifts of an untyped constant) get their type
+			// from the checks below, which convert them to the type of the key, element or field.
+			var untyped []*node
+			for _, c := range child {
+				elems := []*node{c}
+				if c.kind == keyValueExpr {
+					elems = c.child
+				}
+				for _, e := range elems {
+					switch e.kind {
+					case binaryExpr, unaryExpr, parenExpr:
+						if e.typ != nil && e.typ.untyped && !e.rval.IsValid() && e.findex >= 0 {
+							untyped = append(untyped, e)
+						}
+					}
+				}
+			}
+
 			switch n.typ.cat {
 			case arrayT, sliceT:
 				err = check.arrayLitExpr(child, n.typ)
@@ -1533,6 +1551,11 @@ func (interp *Interpreter) cfg(root *node, sc *scope, importPath, pkgName string
 			}
 			if err != nil {
 				break
+			}
+			for _, e := range untyped {
+				// The result and the untyped operands are computed in the converted type.
+				sc.types[e.findex] = e.typ.frameType()
+				fixUntyped(e, e.typ, sc)
 			}
 
 			n.findex = sc.add(n.typ)
